@@ -216,7 +216,114 @@ func execQConc(op string) string {
 	return strings.Join(bs, " ")
 }
 
+// queueblk <thr> <cap> <n>: one Queue(n) call on a channel of capacity cap; a tick is fired while the producer is
+// inside the call; then everything is drained. Output: batches in delivery order, final queue length.
+func execQueueBlk(op string) string {
+	f := strings.Fields(op)
+	if len(f) != 4 || f[0] != "queueblk" {
+		return "bad-op"
+	}
+	thr, _ := strconv.Atoi(f[1])
+	capacity, _ := strconv.Atoi(f[2])
+	n, _ := strconv.Atoi(f[3])
+	saved := clock.ClockInstance
+	tick := make(chan time.Time)
+	clock.ClockInstance = &clock.Clock{Instant: time.Unix(0, 0), TickerCh: tick}
+	c := make(chan event.Events, capacity)
+	eq := event.NewEventQueue(c, thr, time.Second, prometheus.NewCounter(prometheus.CounterOpts{Name: "f"}))
+	clock.ClockInstance = saved
+	evs := make(event.Events, n)
+	for i := range evs {
+		evs[i] = &event.CounterEvent{CMetricName: "e", CValue: float64(i)}
+	}
+	done := make(chan struct{})
+	go func() { eq.Queue(evs); close(done) }()
+	var got []string
+	recv := func(b event.Events) {
+		var ids []string
+		for _, e := range b {
+			ids = append(ids, strconv.Itoa(int(e.Value())))
+		}
+		got = append(got, "["+strings.Join(ids, ",")+"]")
+	}
+	// the producer is inside the call once its first batch is visible (or it has returned: n below the threshold)
+	if capacity > 0 {
+		for i := 0; len(c) == 0; i++ {
+			select {
+			case <-done:
+				i = -1
+			default:
+			}
+			if i < 0 {
+				break
+			}
+			if i > 100000 {
+				return "stalled"
+			}
+			runtime.Gosched()
+		}
+	} else {
+		select { // rendezvous channel: take the first batch (if any) to know the producer is inside
+		case b := <-c:
+			if len(b) > 0 {
+				recv(b)
+			}
+		case <-done:
+		}
+	}
+	select {
+	case tick <- time.Unix(0, 0):
+	case <-time.After(2 * time.Second):
+		return "stalled"
+	}
+	// drain: until the producer returned and the tick's flush is through (queue empty), within a time limit.
+	// eq.Len() takes the queue's mutex, which a flush blocked on the full channel holds: ask in a goroutine and
+	// keep receiving meanwhile.
+	deadline := time.After(1500 * time.Millisecond)
+	producerDone := false
+	lenCh := make(chan int, 1)
+	asking := false
+	last := -1
+	for {
+		if producerDone && !asking {
+			asking = true
+			go func() { lenCh <- eq.Len() }()
+		}
+		select {
+		case b := <-c:
+			if len(b) > 0 { // an empty tick batch carries nothing; both sides ignore it
+				recv(b)
+			}
+		case <-done:
+			producerDone = true
+			done = nil
+		case l := <-lenCh:
+			asking = false
+			last = l
+			if l == 0 && len(c) == 0 {
+				return fmt.Sprintf("got=%s len=0", strings.Join(got, " "))
+			}
+			time.Sleep(50 * time.Microsecond)
+		case <-deadline:
+			return fmt.Sprintf("got=%s len=%d", strings.Join(got, " "), last)
+		}
+	}
+}
+
 func init() {
+	blk := &Component{Name: "queueblk", Exec: execQueueBlk,
+		Rule: "EXHAUSTIVE: thresholds 1..4 x channel capacities 1..4 x Queue(n) for n in 0..14: one producer call, a flush tick fired while the producer is inside the call (holding the mutex, blocked on the full channel when n is large enough), then the consumer drains; compared: every batch in delivery order and the final queue length (the tick must flush what the producer left below the threshold). Non-trivial: the producer blocks (n >= threshold*(capacity+1)) and leaves a remainder (n mod threshold != 0); distinct by op text."}
+	blk.Gen = func(r *rand.Rand, tier string, emit Emit) {
+		for thr := 1; thr <= 4; thr++ {
+			for capacity := 1; capacity <= 4; capacity++ {
+				for n := 0; n <= 14; n++ {
+					emit(fmt.Sprintf("queueblk %d %d %d", thr, capacity, n), n >= thr*(capacity+1) && n%thr != 0, fmt.Sprintf("thr%d", thr))
+				}
+			}
+		}
+		blk.Exhaustive = true
+	}
+	register(blk)
 	det := &Component{Name: "queue", Exec: execQueue,
 		Rule: "EXHAUSTIVE: every sequence of length <= L (L=5 quick, 6 thorough) over {Queue(1), Queue(2), Queue(3), Queue(5), tick, recv} for flush thresholds 1..4, on the real EventQueue driven by the mock ticker with uniquely numbered events; after every call the queue length, the channel length and (for recv) the delivered batch are compared with the micro-step model run under the call's canonical schedule. Non-trivial: the sequence contains a Queue that crosses the threshold, a tick with a non-empty queue and a recv; distinct by op text."}
 	det.Gen = func(r *rand.Rand, tier string, emit Emit) {
